@@ -11,6 +11,7 @@ import (
 	"errors"
 	"fmt"
 	"io"
+	"math"
 	"os"
 	"sort"
 	"sync"
@@ -238,6 +239,7 @@ func (f *simFile) Seek(off int64, whence int) (int64, error) {
 // ---------- the run ----------
 
 type run struct {
+	nanNode    bool
 	qlat, qlon map[int64]int // node id -> quarter-degree index
 	pbf        bool
 	t          *tape.Tape
@@ -363,6 +365,54 @@ func (r *run) genDoc() {
 	for i := range d.rels {
 		d.order = append(d.order, elem{"relation", i})
 	}
+	// id scheme: small ids, ids beyond 2^40 (more than some packed id
+	// representations hold), negative ids (used by editors for new objects)
+	scheme := t.Choose(8, "id-scheme")
+	mapID := func(id int64) int64 {
+		switch scheme {
+		case 5:
+			return id + 1<<41
+		case 6:
+			return -id
+		case 7:
+			if id%2 == 1 {
+				return -(id + 1<<40)
+			}
+			return id + 1<<42
+		}
+		return id
+	}
+	if scheme >= 5 {
+		r.res.Probe("large-or-negative-ids")
+		for i := range d.nodes {
+			old := d.nodes[i].id
+			d.nodes[i].id = mapID(old)
+			r.qlat[d.nodes[i].id], r.qlon[d.nodes[i].id] = r.qlat[old], r.qlon[old]
+		}
+		for i := range d.ways {
+			d.ways[i].id = mapID(d.ways[i].id)
+			for j := range d.ways[i].nodes {
+				d.ways[i].nodes[j] = mapID(d.ways[i].nodes[j])
+			}
+		}
+		for i := range d.rels {
+			d.rels[i].id = mapID(d.rels[i].id)
+			for j := range d.rels[i].members {
+				d.rels[i].members[j].ref = mapID(d.rels[i].members[j].ref)
+			}
+		}
+	}
+	// a node without a usable position (XML only: lat="NaN")
+	if len(d.nodes) > 0 && t.OneIn(12, "nan-node") {
+		i := t.Choose(len(d.nodes), "nan-which")
+		if t.Bool("nan-lat") {
+			d.nodes[i].lat = math.NaN()
+		} else {
+			d.nodes[i].lon = math.NaN()
+		}
+		r.nanNode = true
+		r.res.Probe("node-with-NaN-coordinate")
+	}
 	ord := t.Choose(4, "order")
 	if forceCanonical {
 		ord = 0 // sensitivity experiments only: isolate schedule-dependent failures
@@ -445,7 +495,7 @@ func (r *run) exec() {
 	// waits for them while holding the token), so only fault-free and legal
 	// reader classes are used — an injected error or cancellation would
 	// surface at a moment those goroutines decide
-	r.pbf = t.OneIn(25, "pbf-input")
+	r.pbf = t.OneIn(25, "pbf-input") && !r.nanNode
 	var xmlDoc []byte
 	if r.pbf {
 		if r.class >= 5 {
@@ -726,7 +776,8 @@ func (r *run) compare(what string, data *gosm.Data, d *doc, S result, withTags b
 		if !withTags {
 			wt = nil
 		}
-		if g == nil || int64(g.ID) != n.id || g.Lat != n.lat || g.Lon != n.lon || !tagsEq(g.Tags, wt) {
+		feq := func(a, b float64) bool { return a == b || (a != a && b != b) }
+		if g == nil || int64(g.ID) != n.id || !feq(g.Lat, n.lat) || !feq(g.Lon, n.lon) || !tagsEq(g.Tags, wt) {
 			r.fail("stored-value-wrong", what+",node", "%s stored node %d as %+v, the document says %+v (tags kept: %v)", what, n.id, g, n, withTags)
 			return
 		}
